@@ -7,5 +7,6 @@ CONSTANTS
   DevStderrToFd1 = TRUE
   DevValidateLate = FALSE
   DevIndexCountsSkipped = FALSE
+  DevBreakEndsFileOnly = FALSE
 INVARIANT Streams
 CHECK_DEADLOCK FALSE
